@@ -51,9 +51,9 @@ PROP = {
                 H("c03_leaf_info_hop", "P", what="InfoField / HopField encode exact size, wire format, round trip"),
                 H("c03_leaf_host_addr_known", "P", what="WireHostAddr V4/V6/Svc encode, nibble, round trip"),
                 H("c03_leaf_host_addr_unknown", "P", what="WireHostAddr Unknown 4/8/12/16 (canonical ids) encode, nibble, round trip"),
-                H("c03_hdr_spec_empty_onehop", "P", tier="thorough", what="header with empty / one-hop path: independent spec reader, lengths, round trip", timeout=1800),
-                H("c03_hdr_spec_standard_2x2", "B", tier="thorough", bound="<= 2 segments x <= 2 hops", what="header with standard path: independent spec reader, lengths, round trip", timeout=1800),
-                H("c03_udp_packet_empty_path", "B", tier="thorough", bound="UDP payload <= 8 bytes, empty path", what="whole UDP packet: size, HdrLen, PayloadLen, UDP length, checksum verifies (RFC 1071 spec)", timeout=1800),
+                H("c03_hdr_spec_empty_onehop", "P", tier="experimental", what="header with empty / one-hop path: independent spec reader, lengths, round trip", timeout=1800),
+                H("c03_hdr_spec_standard_2x2", "B", tier="experimental", bound="<= 2 segments x <= 2 hops", what="header with standard path: independent spec reader, lengths, round trip", timeout=1800),
+                H("c03_udp_packet_empty_path", "B", tier="experimental", bound="UDP payload <= 8 bytes, empty path", what="whole UDP packet: size, HdrLen, PayloadLen, UDP length, checksum verifies (RFC 1071 spec)", timeout=1800),
             ],
         },
         {
@@ -69,10 +69,10 @@ PROP = {
                 H("c03_cksum_words_fold", "P", what="add_u16/add_u32/add_u64/fold_checksum/checksum, full domain"),
                 H("c03_cksum_add_slice_aligned_8", "B", bound="slice length <= 8", what="add_slice == RFC 1071 sum incl. both end-around carries, even start address"),
                 H("c03_cksum_add_slice_unaligned_8", "B", bound="slice length <= 8", what="add_slice == RFC 1071 sum incl. both end-around carries, odd start address"),
-                H("c03_cksum_add_slice_aligned_64", "B", tier="thorough", bound="slice length <= 64", what="add_slice == RFC 1071 sum, even start address"),
-                H("c03_cksum_add_slice_unaligned_64", "B", tier="thorough", bound="slice length <= 64", what="add_slice == RFC 1071 sum, odd start address"),
-                H("c03_cksum_add_slice_aligned_256", "B", tier="thorough", bound="slice length <= 256", what="add_slice == RFC 1071 sum, even start address", timeout=3600),
-                H("c03_cksum_add_slice_unaligned_256", "B", tier="thorough", bound="slice length <= 256", what="add_slice == RFC 1071 sum, odd start address", timeout=3600),
+                H("c03_cksum_add_slice_aligned_64", "B", tier="experimental", bound="slice length <= 64", what="add_slice == RFC 1071 sum, even start address"),
+                H("c03_cksum_add_slice_unaligned_64", "B", tier="experimental", bound="slice length <= 64", what="add_slice == RFC 1071 sum, odd start address"),
+                H("c03_cksum_add_slice_aligned_256", "B", tier="experimental", bound="slice length <= 256", what="add_slice == RFC 1071 sum, even start address", timeout=3600),
+                H("c03_cksum_add_slice_unaligned_256", "B", tier="experimental", bound="slice length <= 256", what="add_slice == RFC 1071 sum, odd start address", timeout=3600),
             ],
         },
     ],
